@@ -1216,6 +1216,7 @@ func (x *Exec) doAlloc(st *State, in *ssa.Alloc) Value {
 	}
 	if hasCodecMethods(et) {
 		o := newObj("dyn", et, in.Comment, "fresh")
+		o.BornIn = x.currentLoop(st, in)
 		tg := tagOf(et)
 		st.heap[o] = &Content{Tag: tg, MV: zeroMV(tg)}
 		return VPtr{Obj: o, IsNil: False}
@@ -1339,12 +1340,36 @@ func (x *Exec) store(st *State, addr Value, v Value, in ssa.Instruction) {
 		if a.Arr.Kind == "buffer" && a.Epoch != c.Epoch {
 			x.oblige(st, "safe", fmt.Sprintf("stale-buffer-view@b%d", in.Block().Index), False, "slice from buf.Bytes() used after the buffer was modified")
 		}
+		if o, _ := dynOf(v); o != nil {
+			// a message part put into a list inside a loop must have been allocated in this very iteration:
+			// otherwise all list entries alias one object (elements are treated as values everywhere else)
+			if lp := x.currentLoop(st, in); lp != nil && o.BornIn != lp {
+				x.obligeProps(st, "frame", fmt.Sprintf("frame/list-element-fresh-per-iteration@b%d", blockIdx(in)), False, "every element appended to a list of message parts is a distinct, freshly allocated object", []string{"C01", "C08", "C15", "C16"})
+			}
+		}
 		c.Seq = Splice(c.Seq, a.Idx, Unit(x.box(st, v)))
 	case VGlobal:
 		x.storeGlobal(st, a.G, v, in)
 	default:
 		panic(fmt.Sprintf("unsupported:store-to-%T", addr))
 	}
+}
+
+// currentLoop: the header of the innermost loop whose body contains the instruction (nil outside loops).
+func (x *Exec) currentLoop(st *State, in ssa.Instruction) *ssa.BasicBlock {
+	if in == nil || in.Block() == nil {
+		return nil
+	}
+	var best *loopInfo
+	for _, li := range x.loops {
+		if li.blocks[in.Block()] && (best == nil || len(li.blocks) < len(best.blocks)) {
+			best = li
+		}
+	}
+	if best == nil {
+		return nil
+	}
+	return best.header
 }
 
 // mutexOf returns the mutex object living in the same struct, if the struct has one.
